@@ -754,8 +754,10 @@ def extract_item(path, selector, opts, directives, findings_open):
         rg = directives["region"]
         anchor = rg["start"]
         n = orig.count(anchor)
-        if n != 1: raise ExtractError("anchor lost: region start %r occurs %d times in %s %s" % (anchor[:40], n, path, selector))
-        a0 = orig.index(anchor)
+        kth = rg.get("start_k")
+        if (kth is None and n != 1) or (kth is not None and n < kth):
+            raise ExtractError("anchor lost: region start %r occurs %d times in %s %s" % (anchor[:40], n, path, selector))
+        a0 = [m.start() for m in re.finditer(re.escape(anchor), orig)][(kth or 1) - 1]
         toks_, st_ = _sig_with_index(orig)
         i0 = next((i for i, t in enumerate(st_) if t.start == a0), None)
         if i0 is None or not _stmt_start(st_, i0):
@@ -1110,6 +1112,7 @@ def generate(spec_path, open_findings=(), auto_helpers=()):
                         if d2 == "end": i += 1; break
                         if d2.startswith("region-start "):
                             q, _r = _parse_quoted(d2[len("region-start "):]); directives.setdefault("region", {})["start"] = q
+                            if _r.strip().startswith("#"): directives["region"]["start_k"] = int(_r.strip()[1:])
                         elif d2.startswith("region-end "):
                             q, _r = _parse_quoted(d2[len("region-end "):]); directives.setdefault("region", {})["end"] = q
                         elif d2.startswith("region-call "):
